@@ -133,6 +133,11 @@ def run_impl(prog: dict, ic: Any, schedule: Optional[List[int]] = None, mode: st
 
             if mode == "thread":
                 ThreadSched(rt, choose).run()
+            elif mode == "thread-preempt":
+                from icv.sched import PreemptSched
+                ps = PreemptSched(rt, choose, rng)
+                ps.run()
+                rt.preemptions = ps.preemptions
             elif mode == "async-emulated":
                 AsyncSched(rt, choose).run()
             else:
